@@ -134,6 +134,8 @@ pub struct Interpreter<'a, R: RealNumberInternalTrait> {
     lib_loader: LibraryLoader<'a, R>,
     imported_library: HashSet<LibraryName>,
     import_end: bool, // indicate program's import declaration part end
+    // syntax defined by the programs this interpreter evaluated (per interpreter, not per thread)
+    syntax_env: Rc<LexicalScope<Transformer>>,
     pub program_directory: Option<PathBuf>,
     _marker: PhantomData<R>,
 }
@@ -151,6 +153,7 @@ impl<'a, R: RealNumberInternalTrait> Interpreter<'a, R> {
             lib_loader: LibraryLoader::default(),
             imported_library: HashSet::new(),
             import_end: false,
+            syntax_env: new_syntax_environment(),
             program_directory: None,
             _marker: PhantomData,
         };
@@ -712,6 +715,7 @@ impl<'a, R: RealNumberInternalTrait> Interpreter<'a, R> {
         {
             let lexer = Lexer::from_char_stream(char_stream);
             let mut parser = Parser::from_lexer(lexer);
+            parser.syntax_env = self.syntax_env.clone();
             parser.try_fold(None, |_, statement| self.eval_root_ast(&statement?))
         }
     }
